@@ -12,7 +12,7 @@ import (
 
 var known = ev.Matcher[Case]{}
 
-const rule = "histories of 2-5 migration files after a fixed init file, each file = 1-3 schema evolution steps over a table model (add/drop table, add/drop plain column, add/drop VIRTUAL generated column, add/drop index, " +
+const rule = "every step kind x every table of the initial schema x column {a, b} x authoring route as a one-file history; random histories of 2-5 migration files after a fixed init file, each file = 1-3 schema evolution steps over a table model (add/drop table, add/drop plain column, add/drop VIRTUAL generated column, add/drop index, " +
 	"manual table rebuild omitting a column, manual rebuild keeping all columns, scratch table created and dropped in the same file, column added and dropped in the same file, pre-existing column dropped and re-added under the same name, pre-existing table dropped and re-created); each file is authored either by the real `atlas migrate diff` " +
 	"(Atlas' own SQL incl. its rebuild procedure) or as hand-written equivalent SQL; then `atlas migrate lint --dev-url sqlite://dev?mode=memory --latest N --format '{{ json . }}'` for every N up to the whole directory (init file included: empty base). Hand-written files are padded with 2-14 `SELECT 1` statements a third of the time (files longer than ten statements take another loader path). " +
 	"Oracle: per file in the window the multiset of DS1xx diagnostics (code, object) equals the model's (a table or non-virtual column that existed before the file disappears => DS102/DS103; nothing for additive, virtual, index or same-file temporary objects); " +
@@ -80,6 +80,25 @@ func TestCheck(t *testing.T) {
 		}
 		col.Sample("history", c)
 		return err
+	}
+	// every step kind on every table of the initial schema, authored by hand and (where the kind allows) by migrate diff:
+	// one file after the fixed init file, so that each kind is judged on a pre-existing object whatever the random part draws
+	seen := map[string]bool{}
+	for _, k := range kinds {
+		for _, tb := range []string{"base", "other", "events"} {
+			for _, cn := range []string{"a", "b"} {
+				for _, route := range []string{"hand", "diff"} {
+					if route == "diff" && handOnly(k) || seen[k+tb+cn+route] {
+						continue
+					}
+					seen[k+tb+cn+route] = true
+					c := Case{Files: []FileSpec{{Route: route, Steps: []Step{{Kind: k, Table: tb, Col: cn}}}}}
+					if !ev.Each(col, "each-kind-on-each-initial-table", c, check, known) {
+						return
+					}
+				}
+			}
+		}
 	}
 	ev.Rapid(t, col, "histories", col.N(90, 4000), genCase, check, known)
 }
